@@ -7,6 +7,7 @@ import (
 	"sort"
 
 	"github.com/creachadair/mds/heapq"
+	"verif/devheap"
 	"verif/vk"
 )
 
@@ -48,77 +49,10 @@ type HeapCase struct {
 	Ops     []HOp  `json:"ops"`
 }
 
-// devHeap is the documented array-heap algorithm with optional deviations:
-// f1: sift-up goes through slot i/2 instead of (i-1)/2 (finding F1);
-// f2: removal at an interior offset never sifts up (finding F2).
+// devHeap couples a deviation model with its liveness flag.
 type devHeap struct {
-	f1, f2 bool
-	// f1pop: the sift-up that a repair of F2 adds to removal also goes through
-	// slot i/2 (i.e. the repair simply calls the existing pushUp).
-	f1pop bool
-	data   []Elem
-	cmp    func(a, b Elem) int
-	alive  bool // still coincides with the real queue on everything observed
-}
-
-func (h *devHeap) pushUp(i int, buggy bool) {
-	for i > 0 {
-		par := (i - 1) / 2
-		if buggy {
-			par = i / 2
-		}
-		if h.cmp(h.data[i], h.data[par]) >= 0 {
-			break
-		}
-		h.data[i], h.data[par] = h.data[par], h.data[i]
-		i = par
-	}
-}
-func (h *devHeap) pushDown(i int) int {
-	lc := 2*i + 1
-	for lc < len(h.data) {
-		m := i
-		if h.cmp(h.data[lc], h.data[m]) < 0 {
-			m = lc
-		}
-		if rc := lc + 1; rc < len(h.data) && h.cmp(h.data[rc], h.data[m]) < 0 {
-			m = rc
-		}
-		if m == i {
-			break
-		}
-		h.data[i], h.data[m] = h.data[m], h.data[i]
-		i, lc = m, 2*m+1
-	}
-	return i
-}
-func (h *devHeap) heapify() {
-	for i := len(h.data) / 2; i >= 0; i-- {
-		h.pushDown(i)
-	}
-}
-func (h *devHeap) add(e Elem) { h.data = append(h.data, e); h.pushUp(len(h.data)-1, h.f1) }
-func (h *devHeap) pop(i int) Elem {
-	out := h.data[i]
-	n := len(h.data) - 1
-	if n == 0 {
-		h.data = h.data[:0]
-		return out
-	}
-	h.data[i] = h.data[n]
-	h.data = h.data[:n]
-	if i < n {
-		if j := h.pushDown(i); j == i && !h.f2 {
-			h.pushUp(i, h.f1pop)
-		}
-	}
-	return out
-}
-func (h *devHeap) set(vs []Elem) {
-	h.data = append(h.data[:0], vs...)
-	for i := len(h.data) - 1; i >= 0; i-- {
-		h.pushDown(i)
-	}
+	*devheap.Heap[Elem]
+	alive bool // still coincides with the real queue on everything observed
 }
 
 func sameSeq(a, b []Elem) bool {
@@ -234,7 +168,7 @@ func (r *heapRun) orderFailure(msg string) string {
 		if !d.alive {
 			continue
 		}
-		has1, has2 := d.f1, d.f2
+		has1, has2 := d.F1, d.F2
 		name := ""
 		if has1 && r.expF1 {
 			name = "F1"
@@ -257,7 +191,7 @@ func (r *heapRun) orderFailure(msg string) string {
 // syncDevs compares every deviation model with the real queue's array order.
 func (r *heapRun) syncDevs(real []Elem) {
 	for _, d := range r.devs {
-		if d.alive && !sameSeq(d.data, real) {
+		if d.alive && !sameSeq(d.Data, real) {
 			d.alive = false
 		}
 	}
@@ -423,8 +357,8 @@ func (r *heapRun) doPop(i int, viaRemove bool) string {
 	delete(r.held, got.ID)
 	delete(r.tracked, got.ID)
 	for _, d := range r.devs {
-		if d.alive && i < len(d.data) {
-			d.pop(i)
+		if d.alive && i < len(d.Data) {
+			d.Pop(i)
 		}
 	}
 	return ""
@@ -457,7 +391,7 @@ func (r *heapRun) doAdd(v int) string {
 	}
 	for _, d := range r.devs {
 		if d.alive {
-			d.add(e)
+			d.Add(e)
 		}
 	}
 	return ""
@@ -566,7 +500,7 @@ func (r *heapRun) apply(op HOp) string {
 		}
 		for _, d := range r.devs {
 			if d.alive {
-				d.set(es)
+				d.Set(es)
 			}
 		}
 		if n > 0 {
@@ -577,9 +511,9 @@ func (r *heapRun) apply(op HOp) string {
 		r.setCmp(!r.descNow)
 		r.q.Reorder(r.cmp)
 		for _, d := range r.devs {
-			d.cmp = r.cmp
+			d.Cmp = r.cmp
 			if d.alive {
-				d.heapify()
+				d.Heapify()
 			}
 		}
 		if n > 0 {
@@ -592,7 +526,7 @@ func (r *heapRun) apply(op HOp) string {
 		r.held = map[int]Elem{}
 		r.tracked = map[int]bool{}
 		for _, d := range r.devs {
-			d.data = d.data[:0]
+			d.Data = d.Data[:0]
 		}
 		return ""
 	case "each": // early stop
@@ -672,13 +606,10 @@ func runHeap(c HeapCase, checkPos bool, o *vk.Obs) (*heapRun, string) {
 	} else {
 		r.q = heapq.New(r.cmp)
 	}
-	// {F1} (F2 repaired by calling the existing pushUp), {F2}, {F1,F2} (the
-	// pinned tree), {F1} with F2 repaired by a correct sift-up.
-	for _, f := range [][3]bool{{true, false, true}, {false, true, false}, {true, true, false}, {true, false, false}} {
-		d := &devHeap{f1: f[0], f2: f[1], f1pop: f[2], cmp: r.cmp, alive: true}
-		d.data = append(d.data, init...)
-		d.heapify()
-		r.devs = append(r.devs, d)
+	for _, m := range devheap.Variants(r.cmp) {
+		m.Data = append(m.Data, init...)
+		m.Heapify()
+		r.devs = append(r.devs, &devHeap{Heap: m, alive: true})
 	}
 	if c.Update {
 		r.cbOn = true
